@@ -41,5 +41,34 @@ for d in sorted(glob.glob(os.path.join(HERE, "seeded", "C*-*"))):
     rows += "| %s | %s | %s | %s | %s | %s | %s |\n" % (os.path.basename(d), m.get("property", ""), summ, need, first, now,
             ", ".join("`%s`" % k.replace("|", "\\|")[:90] for k in keys[:2]))
 s = sub("seeded-table", rows, s)
+# status table of section 0: binaries from propcfg, numbers from the committed evidence (quick, seed 1) and
+# from thorough_summary.json (written by the last thorough sweep)
+import sys
+sys.path.insert(0, HERE)
+import props as P
+thor = {}
+tp = os.path.join(HERE, "thorough_summary.json")
+if os.path.exists(tp):
+    thor = json.load(open(tp))
+st = "| id | binaries (one TU each) | quick tier (committed evidence) | thorough tier (last sweep) | open findings |\n|---|---|---|---|---|\n"
+for pid in sorted(P.PROPS):
+    cfg = P.PROPS[pid]
+    prof = {}
+    for t in cfg["tus"]:
+        if t.get("probe"):
+            prof["probe"] = prof.get("probe", 0) + 1
+        else:
+            prof[t["profile"]] = prof.get(t["profile"], 0) + 1
+    bins = " + ".join("%d %s" % (n, {"asan": "ASan+UBSan", "native": "native -O2", "probe": "compile probes"}.get(k, k)) for k, n in sorted(prof.items()))
+    q = ""
+    ep = os.path.join(HERE, "evidence", pid + ".json")
+    if os.path.exists(ep):
+        e = json.load(open(ep)); c = e["coverage"]
+        q = "%s cases, %s evaluations, %s distinct; %s s; max case CPU %s ms" % (c.get("cases", c.get("cases_run", "?")), c.get("evaluations", "?"), c.get("distinct_nontrivial", "?"), e.get("wall_s", "?"), c.get("counters", {}).get("max_case_cpu_ms", "?"))
+        if e.get("tier") != "quick": q = "(%s) " % e.get("tier") + q
+    t = thor.get(pid, "")
+    opn_ids = " ".join(e["id"] for e in k["open"] if e["property"] == pid) or "–"
+    st += "| %s | %s | %s | %s | %s |\n" % (pid, bins, q, t, opn_ids)
+s = sub("status-table", st, s)
 open(p, "w").write(s)
 print("DESIGN.md tables: %d fixed, %d open" % (len(k["fixed"]), len(k["open"])))
